@@ -32,6 +32,15 @@ def check(report, tier, seed):
         k += 1
         cases[cid] = {"hcl": histgen.stat_program(seq), "yo": gen.yo_line(0, b"\x00") + "\n", "flags": rng.choice(["-", "q", "t", "d"]), "timeout": max(t, 0)}
         meta[cid] = (seq, max(t, 0))
+    # huge budgets ("practically unlimited"): at and around every width a cycle counter could be narrowed to
+    for t in [2 ** 15 - 1, 2 ** 15, 2 ** 16, 2 ** 31 - 1, 2 ** 31, 2 ** 31 + 1, 3000000000, 2 ** 32 - 2, 2 ** 32 - 1]:
+        for _ in range(3 if tier == "quick" else 40):
+            L = rng.randint(1, 9)
+            seq = [rng.choice([0, 1]) for _ in range(L)] + [rng.choice([2, 2, 3, 4, 5, 6, 7])]
+            cid = "t%d" % k
+            k += 1
+            cases[cid] = {"hcl": histgen.stat_program(seq), "yo": gen.yo_line(0, b"\x00") + "\n", "flags": rng.choice(["-", "q", "t", "d"]), "timeout": t}
+            meta[cid] = (seq, t)
     # last value repeats forever: a sequence ending in 0/1 with timeout 9999 runs 9999 cycles; keep those few
     for cid in list(cases):
         seq, t = meta[cid]
@@ -74,7 +83,7 @@ def check(report, tier, seed):
     report.coverage["distinct_nontrivial"] = len(set((tuple(s), t) for s, t in meta.values()))
     report.coverage["exhaustive"] = True
     report.coverage["rule"] = ("every Stat sequence over the eight 3-bit values of length <= %d x timeouts 0..%d (exhaustive; quick tier thins length 3 to "
-                               "one in three), plus random longer sequences with timeout = halting cycle +-1; run through RunningProgram::run with "
+                               "one in three), plus random longer sequences with timeout = halting cycle +-1, plus halting sequences under budgets 2^15-1 .. 2^32-1; run through RunningProgram::run with "
                                "option sets -, -q, -t, -d; distinct = distinct (sequence, timeout)" % (maxlen, tmax))
     report.coverage["distribution"] = dict(stats, **{"spec_" + k: v for k, v in kinds.items()})
     report.coverage["samples"] = [{"seq": meta["t5"][0], "timeout": meta["t5"][1], "hcl": cases["t5"]["hcl"]}]
